@@ -164,6 +164,9 @@ def run (args : List String) : String :=
   -- a receiver waiting in `NextPackage` holds the read lock for the whole call: `Close` waits for its write
   -- lock until the receiver has returned with its context's error; without the lock `Close` closes the
   -- queues under the receiver, whose select then yields a nil package and no error
+  -- the error of a rejected special package goes into the CHANNEL's error queue, which `Close` drains while it
+  -- waits for its lock (closeDrainsWhileLocking): the state of the connection's error queue does not matter
+  | ["close-connerrs", _, _] => if closeDrainsWhileLocking then "close=ok" else "blocked"
   | ["close-waiting", _] =>
     if nextPackageHoldsRLock then "recv=ctx close=ok after=closed" else "recv=ok close=ok after=closed"
   | ["conn-close", n, _] | ["conn-close", n, _, _] =>   -- fourth argument: a logical channel closed earlier
